@@ -56,8 +56,7 @@ pub fn after_op(
     let height = g.sys.height();
     // ---------------------------------------------------------------- C11: nothing aborts
     if let Outcome::Panicked(what) = out {
-        let site = what.split(": ").next().unwrap_or("?").to_string();
-        let site = site.rsplit('/').next().unwrap_or(&site).to_string();
+        let site = panic_site(what);
         g.rep.fail("C11", &format!("panic@{site}"), &format!("{} panicked: {what}", crate::towerhist::op_name(op)));
         return;
     }
